@@ -12,7 +12,7 @@ namespace LlgoVerif.Types
 
 /-- characters that may occur in a package path -/
 def pathChar (c : Char) : Bool :=
-  c != ' ' && c != '\n' && c != '[' && c != ']' && c != '$' && c != '*' && c != '<' && c != ',' && c != '(' && c != ')'
+  c != ' ' && c != '\n' && c != '\t' && c != '[' && c != ']' && c != '$' && c != '*' && c != '<' && c != ',' && c != '(' && c != ')'
 /-- characters of the hash token (base64url: letters, digits, `-`, `_`) -/
 def hashChar (c : Char) : Bool := pathChar c && c != '.'
 /-- characters of an identifier -/
@@ -64,58 +64,63 @@ mutual
     names; all non-exported names of one struct / interface belong to one package; an embedded
     field's name is the one its type determines; interface methods have func signatures; named
     types have no type arguments and no detached scope (`Scope.pos`). -/
-def wfT (ex : Str → Bool) : GoType → Bool
+def wfT (cfg : Cfg) (ex : Str → Bool) : GoType → Bool
   | .basic _ => true
-  | .pointer e => wfT ex e
-  | .slice e => wfT ex e
-  | .array _ e => wfT ex e
-  | .map k v => wfT ex k && wfT ex v
-  | .chan _ e => wfT ex e
-  | .alias _ a => wfT ex a
-  | .func ps rs _ => wfL ex ps && wfL ex rs
-  | .struct fs => wfF ex fs && uniformF (firstPkgF fs) fs
-  | .iface ms => wfM ex ms && uniformM (firstPkgM ms) ms
+  | .pointer e => wfT cfg ex e
+  | .slice e => wfT cfg ex e
+  | .array _ e => wfT cfg ex e
+  | .map k v => wfT cfg ex k && wfT cfg ex v
+  | .chan _ e => wfT cfg ex e
+  | .alias _ a => wfT cfg ex a
+  | .func ps rs _ => wfL cfg ex ps && wfL cfg ex rs
+  | .struct fs => wfF cfg ex fs && uniformF (firstPkgF fs) fs
+  | .iface ms => wfM cfg ex ms && uniformM (firstPkgM ms) ms
   | .named _ pkg name sc targs =>
     identOk name && targs.isNil && scOk sc &&
       (match pkg with | none => !(reserved.contains name) | some p => pathOk p)
-def wfL (ex : Str → Bool) : TList → Bool
+def wfL (cfg : Cfg) (ex : Str → Bool) : TList → Bool
   | .nil => true
-  | .cons t r => wfT ex t && wfL ex r
-def wfF (ex : Str → Bool) : FList → Bool
+  | .cons t r => wfT cfg ex t && wfL cfg ex r
+def wfF (cfg : Cfg) (ex : Str → Bool) : FList → Bool
   | .nil => true
   | .cons name pkg emb _ t r =>
-    identOk name && pkgOk pkg && (pkg.isNone == ex name) && (!emb || embName t == some name) &&
-      wfT ex t && wfF ex r
-def wfM (ex : Str → Bool) : MList → Bool
+    identOk name && pkgOk pkg && (pkg.isNone == ex name) && (!emb || cfg.embNames || embName t == some name) &&
+      wfT cfg ex t && wfF cfg ex r
+def wfM (cfg : Cfg) (ex : Str → Bool) : MList → Bool
   | .nil => true
   | .cons name pkg sig r =>
-    identOk name && pkgOk pkg && (pkg.isNone == ex name) && isFunc sig && wfT ex sig && wfM ex r
+    identOk name && pkgOk pkg && (pkg.isNone == ex name) && isFunc sig && wfT cfg ex sig && wfM cfg ex r
 end
 
 mutual
-/-- no struct field carries a tag -/
-def tagsErased : GoType → Bool
+/-- tags are harmless for the naming variant: either the variant writes them (`cfg.tags`) or no struct
+    field carries one -/
+def tagsOk (cfg : Cfg) : GoType → Bool
   | .basic _ => true
-  | .pointer e => tagsErased e
-  | .slice e => tagsErased e
-  | .array _ e => tagsErased e
-  | .map k v => tagsErased k && tagsErased v
-  | .chan _ e => tagsErased e
-  | .alias _ a => tagsErased a
-  | .func ps rs _ => tagsErasedL ps && tagsErasedL rs
-  | .struct fs => tagsErasedF fs
-  | .iface ms => tagsErasedM ms
-  | .named _ _ _ _ targs => tagsErasedL targs
-def tagsErasedL : TList → Bool
+  | .pointer e => tagsOk cfg e
+  | .slice e => tagsOk cfg e
+  | .array _ e => tagsOk cfg e
+  | .map k v => tagsOk cfg k && tagsOk cfg v
+  | .chan _ e => tagsOk cfg e
+  | .alias _ a => tagsOk cfg a
+  | .func ps rs _ => tagsOkL cfg ps && tagsOkL cfg rs
+  | .struct fs => tagsOkF cfg fs
+  | .iface ms => tagsOkM cfg ms
+  | .named _ _ _ _ targs => tagsOkL cfg targs
+def tagsOkL (cfg : Cfg) : TList → Bool
   | .nil => true
-  | .cons t r => tagsErased t && tagsErasedL r
-def tagsErasedF : FList → Bool
+  | .cons t r => tagsOk cfg t && tagsOkL cfg r
+def tagsOkF (cfg : Cfg) : FList → Bool
   | .nil => true
-  | .cons _ _ _ tag t r => tag == [] && tagsErased t && tagsErasedF r
-def tagsErasedM : MList → Bool
+  | .cons _ _ _ tag t r => (cfg.tags || tag == []) && tagsOk cfg t && tagsOkF cfg r
+def tagsOkM (cfg : Cfg) : MList → Bool
   | .nil => true
-  | .cons _ _ s r => tagsErased s && tagsErasedM r
+  | .cons _ _ s r => tagsOk cfg s && tagsOkM cfg r
 end
+
+/-- no struct field carries a tag (the side condition for the pinned tree) -/
+def tagsErased (t : GoType) : Bool := tagsOk .current t
+
 
 /-- what `TypeName` renders of a type declaration: (PathOf package, name, scope indices) -/
 abbrev Key := Option Str × Str × List Nat
@@ -250,7 +255,7 @@ theorem hash_nodot {hc : Str → Str} (hclean : ∀ x, ∀ c ∈ hc x, hashChar 
 
 /-! ## package prefixes -/
 
-theorem firstPkgF_chars {ex : Str → Bool} : ∀ fs, wfF ex fs = true → ∀ c ∈ firstPkgF fs, pathChar c = true
+theorem firstPkgF_chars {cfg : Cfg} {ex : Str → Bool} : ∀ fs, wfF cfg ex fs = true → ∀ c ∈ firstPkgF fs, pathChar c = true
   | .nil, _ => by simp [firstPkgF]
   | .cons _ pkg _ _ _ r, h => by
     simp only [wfF, Bool.and_eq_true] at h
@@ -263,7 +268,7 @@ theorem firstPkgF_chars {ex : Str → Bool} : ∀ fs, wfF ex fs = true → ∀ c
       · exact ih
       · exact pathOk_chars (by simpa [pkgOk] using h.1.1.1.1.2)
 
-theorem firstPkgM_chars {ex : Str → Bool} : ∀ ms, wfM ex ms = true → ∀ c ∈ firstPkgM ms, pathChar c = true
+theorem firstPkgM_chars {cfg : Cfg} {ex : Str → Bool} : ∀ ms, wfM cfg ex ms = true → ∀ c ∈ firstPkgM ms, pathChar c = true
   | .nil, _ => by simp [firstPkgM]
   | .cons _ pkg _ r, h => by
     simp only [wfM, Bool.and_eq_true] at h
@@ -276,7 +281,7 @@ theorem firstPkgM_chars {ex : Str → Bool} : ∀ ms, wfM ex ms = true → ∀ c
       · exact ih
       · exact pathOk_chars (by simpa [pkgOk] using h.1.1.1.1.2)
 
-theorem isClosure_false {ex : Str → Bool} (fs : FList) (h : wfF ex fs = true) : isClosure fs = false := by
+theorem isClosure_false {cfg : Cfg} {ex : Str → Bool} (fs : FList) (h : wfF cfg ex fs = true) : isClosure fs = false := by
   unfold isClosure
   split
   · next n1 _ _ _ _ _ _ n2 _ _ _ =>
@@ -291,21 +296,21 @@ theorem isClosure_false {ex : Str → Bool} (fs : FList) (h : wfF ex fs = true) 
 /-! ## invariants of `nameC` -/
 
 section
-variable {hc : Str → Str} (hclean : ∀ x, ∀ c ∈ hc x, hashChar c = true) {ex : Str → Bool}
+variable {hc : Str → Str} (hclean : ∀ x, ∀ c ∈ hc x, hashChar c = true) {cfg : Cfg} {ex : Str → Bool}
 
 theorem flat_lit_dollar_dot (s : Str) (h : s.all flatChar = true) : Flat s := flat_of_all h fun _ h => h
 
-theorem name_basic_flat (k : BasicKind) : Flat (nameC hc false (.basic k)) := by
+theorem name_basic_flat (k : BasicKind) : Flat (nameC cfg hc false (.basic k)) := by
   simp only [nameC]
   cases k <;> exact flat_lit_dollar_dot _ (by decide)
 
 include hclean in
-theorem name_func_flat (ps rs : TList) (v : Bool) : Flat (nameC hc false (.func ps rs v)) := by
+theorem name_func_flat (ps rs : TList) (v : Bool) : Flat (nameC cfg hc false (.func ps rs v)) := by
   simp only [nameC]
   exact flat_append (flat_lit_dollar_dot _ (by decide)) (hash_flat hclean _)
 
 include hclean in
-theorem name_struct_flat (fs : FList) (h : wfF ex fs = true) : Flat (nameC hc false (.struct fs)) := by
+theorem name_struct_flat (fs : FList) (h : wfF cfg ex fs = true) : Flat (nameC cfg hc false (.struct fs)) := by
   simp only [nameC, isClosure_false fs h, Bool.false_and, Bool.false_eq_true, if_false]
   split
   · exact flat_append (flat_lit_dollar_dot _ (by decide)) (hash_flat hclean _)
@@ -313,7 +318,7 @@ theorem name_struct_flat (fs : FList) (h : wfF ex fs = true) : Flat (nameC hc fa
       (flat_append (flat_lit_dollar_dot _ (by decide)) (hash_flat hclean _))
 
 include hclean in
-theorem name_iface_flat (ms : MList) (h : wfM ex ms = true) : Flat (nameC hc false (.iface ms)) := by
+theorem name_iface_flat (ms : MList) (h : wfM cfg ex ms = true) : Flat (nameC cfg hc false (.iface ms)) := by
   simp only [nameC]
   split
   · exact flat_lit_dollar_dot _ (by decide)
@@ -341,7 +346,7 @@ theorem scopeStr_flat (pkg : Option Str) (sc : Scope) (h : scOk sc = true) : Fla
     | pos p => simp [scOk] at h
 
 theorem name_named_flat (d : Nat) (pkg : Option Str) (name : Str) (sc : Scope) (targs : TList)
-    (h : wfT ex (.named d pkg name sc targs) = true) : Flat (nameC hc false (.named d pkg name sc targs)) := by
+    (h : wfT cfg ex (.named d pkg name sc targs) = true) : Flat (nameC cfg hc false (.named d pkg name sc targs)) := by
   simp only [wfT, Bool.and_eq_true] at h
   obtain ⟨⟨⟨hn, ht⟩, hs⟩, hp⟩ := h
   cases targs with
@@ -373,7 +378,7 @@ theorem inv_brackets' {s : Str} (h : Inv s) : Inv ('[' :: s ++ [']']) :=
   ⟨by simp [h.1], balanced_bracket h.2⟩
 
 include hclean in
-theorem name_inv : ∀ (t : GoType), wfT ex t = true → Inv (nameC hc false t)
+theorem name_inv : ∀ (t : GoType), wfT cfg ex t = true → Inv (nameC cfg hc false t)
   | .basic k, _ => inv_flat (name_basic_flat k)
   | .pointer e, h => by
     have ih := name_inv e (by simpa [wfT] using h)
@@ -501,7 +506,7 @@ theorem atomClass_dollar {pre h : Str} (hp : '$' ∉ pre) :
 /-! ## the class of `nameC t` is the class of `t` -/
 
 section
-variable {hc : Str → Str} (hclean : ∀ x, ∀ c ∈ hc x, hashChar c = true) {ex : Str → Bool}
+variable {hc : Str → Str} (hclean : ∀ x, ∀ c ∈ hc x, hashChar c = true) {cfg : Cfg} {ex : Str → Bool}
 
 theorem classOf_flat {s : Str} (h : Flat s) : classOf s = (.atom, some (atomClass s)) := by
   unfold classOf; rw [headOf_flat h]
@@ -535,7 +540,7 @@ theorem scopeStr_nodollar (pkg : Option Str) (sc : Scope) : '$' ∉ scopeStr pkg
 theorem scopeStr_none_nodot (sc : Scope) : scopeStr none sc = [] := by simp [scopeStr]
 
 include hclean in
-theorem class_name : ∀ (t : GoType), wfT ex t = true → classOf (nameC hc false t) = typeClass t
+theorem class_name : ∀ (t : GoType), wfT cfg ex t = true → classOf (nameC cfg hc false t) = typeClass t
   | .pointer e, _ => by simp [nameC, classOf, headOf, typeClass]
   | .slice e, _ => by simp [nameC, classOf, headOf, typeClass]
   | .array n e, _ => by
@@ -644,7 +649,7 @@ theorem unalias_idem : ∀ (t : GoType), unalias (unalias t) = unalias t
   | .iface _ => by simp [unalias]
   | .named _ _ _ _ _ => by simp [unalias]
 
-theorem nameC_unalias (hc : Str → Str) (pub : Bool) : ∀ (t : GoType), nameC hc pub t = nameC hc pub (unalias t)
+theorem nameC_unalias (hc : Str → Str) (pub : Bool) : ∀ (t : GoType), nameC cfg hc pub t = nameC cfg hc pub (unalias t)
   | .alias _ b => by rw [unalias, nameC]; exact nameC_unalias hc pub b
   | .basic _ => by simp [unalias]
   | .pointer _ => by simp [unalias]
@@ -657,8 +662,8 @@ theorem nameC_unalias (hc : Str → Str) (pub : Bool) : ∀ (t : GoType), nameC 
   | .iface _ => by simp [unalias]
   | .named _ _ _ _ _ => by simp [unalias]
 
-theorem wfT_unalias (ex : Str → Bool) : ∀ (t : GoType), wfT ex (unalias t) = wfT ex t
-  | .alias _ b => by rw [unalias, wfT]; exact wfT_unalias ex b
+theorem wfT_unalias (cfg : Cfg) (ex : Str → Bool) : ∀ (t : GoType), wfT cfg ex (unalias t) = wfT cfg ex t
+  | .alias _ b => by rw [unalias, wfT]; exact wfT_unalias cfg ex b
   | .basic _ => by simp [unalias]
   | .pointer _ => by simp [unalias]
   | .slice _ => by simp [unalias]
@@ -670,8 +675,8 @@ theorem wfT_unalias (ex : Str → Bool) : ∀ (t : GoType), wfT ex (unalias t) =
   | .iface _ => by simp [unalias]
   | .named _ _ _ _ _ => by simp [unalias]
 
-theorem tagsErased_unalias : ∀ (t : GoType), tagsErased (unalias t) = tagsErased t
-  | .alias _ b => by rw [unalias, tagsErased]; exact tagsErased_unalias b
+theorem tagsOk_unalias (cfg : Cfg) : ∀ (t : GoType), tagsOk cfg (unalias t) = tagsOk cfg t
+  | .alias _ b => by rw [unalias, tagsOk]; exact tagsOk_unalias cfg b
   | .basic _ => by simp [unalias]
   | .pointer _ => by simp [unalias]
   | .slice _ => by simp [unalias]
@@ -708,5 +713,93 @@ theorem identical_unalias_r : ∀ (t₁ t₂ : GoType), identical t₁ t₂ = id
   | .struct _, _ => by simp [identical, unalias_idem]
   | .iface _, _ => by simp [identical, unalias_idem]
   | .named _ _ _ _ _, _ => by simp [identical, unalias_idem]
+
+
+/-! ## the tag line of the repaired variant -/
+
+theorem hexDigitC_props : ∀ n, n < 16 → hexDigitC n ≠ '\n' ∧ (hexDigitC n).toNat = (if n < 10 then 48 + n else 87 + n) := by
+  intro n hn
+  have : n = 0 ∨ n = 1 ∨ n = 2 ∨ n = 3 ∨ n = 4 ∨ n = 5 ∨ n = 6 ∨ n = 7 ∨ n = 8 ∨ n = 9 ∨ n = 10 ∨ n = 11 ∨
+      n = 12 ∨ n = 13 ∨ n = 14 ∨ n = 15 := by omega
+  rcases this with h | h | h | h | h | h | h | h | h | h | h | h | h | h | h | h <;> subst h <;> decide
+
+theorem hexDigitC_inj {a b : Nat} (ha : a < 16) (hb : b < 16) (h : hexDigitC a = hexDigitC b) : a = b := by
+  have h1 := (hexDigitC_props a ha).2
+  have h2 := (hexDigitC_props b hb).2
+  rw [h] at h1
+  rw [h1] at h2
+  split at h2 <;> split at h2 <;> omega
+
+theorem hexStr_nonl (bs : List UInt8) : '\n' ∉ hexStr bs := by
+  unfold hexStr
+  simp only [List.mem_flatMap, not_exists, not_and]
+  intro b _ h
+  simp only [List.mem_cons, List.not_mem_nil, or_false] at h
+  have hb : b.toNat < 256 := b.toNat_lt
+  rcases h with h | h
+  · exact (hexDigitC_props (b.toNat / 16) (by omega)).1 h.symm
+  · exact (hexDigitC_props (b.toNat % 16) (by omega)).1 h.symm
+
+theorem hexStr_inj : ∀ (a b : List UInt8), hexStr a = hexStr b → a = b
+  | [], [], _ => rfl
+  | [], _ :: _, h => by simp [hexStr] at h
+  | _ :: _, [], h => by simp [hexStr] at h
+  | x :: xs, y :: ys, h => by
+    have e : ∀ (z : UInt8) (zs : List UInt8), hexStr (z :: zs) =
+        hexDigitC (z.toNat / 16) :: hexDigitC (z.toNat % 16) :: hexStr zs := by
+      intro z zs; simp [hexStr]
+    rw [e, e] at h
+    simp only [List.cons.injEq] at h
+    have hx : x.toNat < 256 := x.toNat_lt
+    have hy : y.toNat < 256 := y.toNat_lt
+    have h1 := hexDigitC_inj (by omega) (by omega) h.1
+    have h2 := hexDigitC_inj (by omega) (by omega) h.2.1
+    have : x = y := UInt8.toNat_inj.1 (by omega)
+    rw [this, hexStr_inj xs ys h.2.2]
+
+theorem utf8_injective : Function.Injective utf8 := by
+  intro a b h
+  unfold utf8 at h
+  have h1 : (String.ofList a).toByteArray.data = (String.ofList b).toByteArray.data := Array.toList_inj.1 h
+  have h2 := ByteArray.ext h1
+  exact String.ofList_inj.1 (String.toByteArray_inj.1 h2)
+
+/-- what follows a tag line: nothing, or a field line (which never starts with a tab) -/
+def RowStart (s : Str) : Prop := s = [] ∨ ∃ c r, s = c :: r ∧ c ≠ '\t'
+
+theorem tag_step (cfg : Cfg) (g g' F F' : Str) (hg : cfg.tags = true ∨ g = []) (hg' : cfg.tags = true ∨ g' = [])
+    (hF : RowStart F) (hF' : RowStart F') (h : tagLine cfg g ++ F = tagLine cfg g' ++ F') : g = g' ∧ F = F' := by
+  unfold tagLine at h
+  cases ht : cfg.tags with
+  | false =>
+    simp only [ht, Bool.false_and, Bool.false_eq_true, if_false, List.nil_append] at h
+    rcases hg with hg | hg
+    · rw [ht] at hg; cases hg
+    · rcases hg' with hg' | hg'
+      · rw [ht] at hg'; cases hg'
+      · exact ⟨by rw [hg, hg'], h⟩
+  | true =>
+    simp only [ht, Bool.true_and] at h
+    have starts : ∀ (X : Str) (T R : Str), RowStart X → X ≠ '\t' :: T ++ R := by
+      intro X T R hX e
+      rcases hX with rfl | ⟨c, r, rfl, hc⟩
+      · simp at e
+      · simp at e; exact hc e.1
+    by_cases e1 : g = [] <;> by_cases e2 : g' = []
+    · simp only [e1, e2] at h ⊢
+      exact ⟨trivial, by simpa using h⟩
+    · simp only [e1, bne_self_eq_false, Bool.false_eq_true, if_false, List.nil_append] at h
+      have : (g' != []) = true := by simpa using e2
+      simp only [this, if_true] at h
+      exact absurd (by simpa using h) (starts F _ _ hF)
+    · simp only [e2, bne_self_eq_false, Bool.false_eq_true, if_false, List.nil_append] at h
+      have : (g != []) = true := by simpa using e1
+      simp only [this, if_true] at h
+      exact absurd (by simpa using h.symm) (starts F' _ _ hF')
+    · have t1 : (g != []) = true := by simpa using e1
+      have t2 : (g' != []) = true := by simpa using e2
+      simp only [t1, t2, if_true, List.cons_append, List.cons.injEq, true_and, List.append_assoc, List.singleton_append] at h
+      have := splitFirst '\n' _ _ _ _ (hexStr_nonl _) (hexStr_nonl _) h
+      exact ⟨utf8_injective (hexStr_inj _ _ this.1), this.2⟩
 
 end LlgoVerif.Types
